@@ -386,6 +386,32 @@ def smf_refusals(tier, seed, only=None):
                 clipped = ex
             if strict is not None and clipped != strict:
                 fails.append(dict(clause='clip=True equals clip=False where that succeeds', inputs=dict(offset=k), detail=repr(clipped)[:200]))
+    # clip=True really clips: hand-written track data with out-of-range data bytes, with explicit status and in running status
+    import struct as _st
+    import mido as _mido
+
+    def raw_file(track_data):
+        return b'MThd' + _st.pack('>LHHH', 6, 0, 1, 96) + b'MTrk' + _st.pack('>L', len(track_data)) + bytes(track_data)
+    for name, body, want in (
+            ('explicit status, second data byte high', [0, 0x90, 0x40, 0xC8], [('note_on', 0x40, 127)]),
+            ('explicit status, first data byte high', [0, 0x90, 0xC3, 0x20], [('note_on', 127, 0x20)]),
+            ('running status, second data byte high', [0, 0x90, 0x40, 0x40, 0x10, 0x43, 0xC8], [('note_on', 0x40, 0x40), ('note_on', 0x43, 127)]),
+            ('running status after running status', [0, 0x90, 1, 2, 0, 3, 0xFF - 0x70, 0, 5, 0x80 + 1], [('note_on', 1, 2), ('note_on', 3, 127), ('note_on', 5, 127)]),
+            ('two-byte message in running status', [0, 0xC1, 5, 0, 6], [('program_change', 5), ('program_change', 6)])):
+        n += 1
+        seen.add(('clip-explicit', name))
+        datab = raw_file(body + [0, 0xFF, 0x2F, 0])
+        try:
+            got = []
+            for m in _mido.MidiFile(file=io.BytesIO(datab), clip=True).tracks[0]:
+                if m.type == 'note_on':
+                    got.append(('note_on', m.note, m.velocity))
+                elif m.type == 'program_change':
+                    got.append(('program_change', m.program))
+            if got != want:
+                fails.append(dict(clause='clip=True clips out-of-range data bytes to 127', inputs=dict(case=name, track_data=list(body)), detail=repr(got)))
+        except Exception as ex:     # noqa
+            fails.append(dict(clause='clip=True clips out-of-range data bytes to 127', inputs=dict(case=name, track_data=list(body)), detail=repr(ex)))
     # fixed point under byte-level mutation
     N = 600 if tier == 'quick' else 6000
     for trial in range(N):
